@@ -1,0 +1,32 @@
+//! Verification hooks: thin public wrappers around crate-private functions.
+//! Only compiled with the `verif-hooks` feature; they add no behaviour.
+use crate::rust_types::RustItem;
+
+/// `target_os_check::accept_target_os` on the attributes of a struct given as source text.
+pub fn accept_target_os(item_struct_src: &str, target_os: &[String]) -> Option<bool> {
+    let item: syn::ItemStruct = syn::parse_str(item_struct_src).ok()?;
+    Some(crate::target_os_check::accept_target_os(
+        &item.attrs,
+        target_os,
+    ))
+}
+
+/// `topsort::toposort_impl`.
+pub fn toposort_impl(graph: &Vec<Vec<usize>>) -> Vec<usize> {
+    crate::topsort::verif_toposort_impl(graph)
+}
+
+/// `topsort::sort_by_indices`.
+pub fn sort_by_indices<T>(data: &mut [T], indices: Vec<usize>) {
+    crate::topsort::sort_by_indices(data, indices)
+}
+
+/// `topsort::topsort`.
+pub fn topsort(things: &mut [RustItem]) {
+    crate::topsort::topsort(things)
+}
+
+/// `parser::rename_all_to_case`.
+pub fn rename_all_to_case(original: String, case: &Option<String>) -> String {
+    crate::parser::verif_rename_all_to_case(original, case)
+}
